@@ -568,6 +568,7 @@ func checkC16(P *Prog, r *Result) {
 	// schema object (a field list resolved on first use and cached survives cloneShallow, so a schema derived from a
 	// base that has already run still visits the base's fields) - C08's write-effects rule on the struct kind
 	shareRule(P, r, checkC08, "C08/write-effects", func(o Obligation) bool { return strings.Contains(o.Construct, "StructSchema)") }, "C16/no-execution-state-in-schema", 2)
+	P.checkSliceNilnessNotObserved(r, "C16/nil-and-empty-lists-alike")
 }
 
 func originName(fn *ssa.Function) string {
@@ -1439,4 +1440,48 @@ func (P *Prog) boolMapGuardOK(fn *ssa.Function, b *ssa.BasicBlock, key ssa.Value
 		return guarded
 	}
 	return true
+}
+
+// checkSliceNilnessNotObserved: a derived schema "behaves on every input like the schema written out by hand". The two
+// differ in one thing nobody sees from outside: Merge builds its lists with make(..., 0) - empty, not nil - where a
+// schema that was never given a test or a transform holds nil. Execution code therefore never asks whether a list field
+// of a schema is nil (`if v.postTransforms != nil { defer recover... }` arms only the merged schema); len() and range
+// treat both alike.
+func (P *Prog) checkSliceNilnessNotObserved(r *Result, rule string) {
+	R := P.roles
+	g := P.buildModCG()
+	n := 0
+	for _, fn := range sortedFuncs(P.execSet(g)) {
+		eachInstr(fn, func(_ *ssa.BasicBlock, _ int, in ssa.Instruction) {
+			bo, ok := in.(*ssa.BinOp)
+			if !ok || (bo.Op != token.EQL && bo.Op != token.NEQ) {
+				return
+			}
+			var other ssa.Value
+			switch {
+			case isNilConst(bo.Y):
+				other = bo.X
+			case isNilConst(bo.X):
+				other = bo.Y
+			default:
+				return
+			}
+			if _, isSl := other.Type().Underlying().(*types.Slice); !isSl {
+				return
+			}
+			_, f := loadOfField(cv(other))
+			if f == nil {
+				return
+			}
+			owner := P.fieldOwner(f)
+			if owner == nil || !R.isKind(owner) {
+				return
+			}
+			n++
+			r.bad(rule, fmt.Sprintf("%s#%s-nil-test@%d", fname(fn), f.Name(), n), P.ipos(in), "execution code asks whether the list "+f.Name()+" of a schema is nil: a schema produced by Merge holds an empty non-nil list where the same schema written by hand holds nil, so the two take different branches")
+		})
+	}
+	if n == 0 {
+		r.ok(rule, "execution code", "-", "no list field of a schema kind is compared with nil in execution-reachable code")
+	}
 }
